@@ -115,6 +115,23 @@ theorem completion_order_respects_real_time (F : Facts) (s s2 : State) (pre post
     obtain ⟨ds, hds⟩ := run_hist_grows post s1 s2 h
     exact ⟨s1, ds, rfl, h, hds⟩
 
+/-- **The linearization respects real-time order**, in the usual formulation.
+    `spans` records, for every entry of the log, the schedule indices of the
+    first and the last step of that operation. For every schedule (any facts):
+    `spans` runs parallel to the log, an operation starts no later than it ends,
+    and *whenever the last step of the operation at position `i` of the log
+    precedes the first step of the operation at position `j`, then `i < j`* —
+    an operation that returned before another was invoked is linearized before it. -/
+theorem linearization_respects_real_time (F : Facts) (lists : List (List Nat))
+    (progs : List (List Op)) (sched : List Nat) (s' : State)
+    (hrun : run F (init lists progs) sched = some s') :
+    s'.spans.length = s'.hist.length ∧
+    (∀ p ∈ s'.spans, p.1 ≤ p.2 ∧ p.2 < s'.trace.length) ∧
+    (∀ i j (hi : i < s'.spans.length) (hj : j < s'.spans.length),
+      (s'.spans[i]).2 < (s'.spans[j]).1 → i < j) := by
+  have ht := run_timed sched _ _ (timed_init lists progs) hrun
+  exact ⟨ht.len, fun p hp => ⟨ht.le p hp, ht.bound p hp⟩, fun i j hi hj h => timed_order ht i j hi hj h⟩
+
 /-- **No schedule deadlocks.** For every number of threads, all programs (all
     operations, including `==` and `concat`) and every schedule: in the state
     reached, if some thread still has work to do then some thread can take a
@@ -211,6 +228,14 @@ example : (run RotoV.Gen.C16.facts (init [[1], [2]] [[.eq 0 1], [.eq 1 0]]) [0, 
   decide
 example : (run RotoV.Gen.C16.facts (init [[1], [2]] [[.eq 0 1], [.eq 1 0]]) [0, 0, 1, 1]).map
     (fun s => resultsOf s 2) = some [[.bool false], [.bool false]] := by decide
+/-- `linearization_respects_real_time` on a concrete run: thread 1's push (steps 1..1)
+    lies inside thread 0's get (steps 0..2)? No — the push is blocked while the
+    guard is held; it runs after: spans (0,1) then (2,2) -/
+example : (run RotoV.Gen.C16.facts (init [[1, 2, 3, 4]] [[.get 0 1], [.push 0 9]]) [0, 0, 1]).map
+    (·.spans) = some [(0, 1), (2, 2)] := by decide
+/-- overlapping operations: `==` of thread 0 (steps 0..2) overlaps thread 1's len (step 1) -/
+example : (run RotoV.Gen.C16.facts (init [[1], [2]] [[.eq 0 1], [.len 1]]) [0, 1, 0]).map
+    (·.spans) = some [(1, 1), (0, 2)] := by decide
 /-- `completion_order_respects_real_time` on a concrete split -/
 example : (run RotoV.Gen.C16.facts (init [[1]] [[.len 0], [.push 0 2]]) ([0] ++ [1])).isSome = true := by
   decide
